@@ -44,7 +44,7 @@ Qed.
 
 (* ------------------------------------------------------------------------------------------- the aggregate of a value list *)
 Definition vals_safe (d : dname) (f : afn) (t : vty) : bool :=
-  match f with FSum => negb (vty_eqb t TBool) | FAvg => negb (pg d && vty_eqb t TBool) | _ => true end.
+  match f with FSum | FAvg => negb (pg d && vty_eqb t TBool) | _ => true end.
 
 Lemma vals_sound : forall d f distinct t vals, modelled d = true ->
   aggr_ty_ok f t = true -> vals_safe d f t = true -> Forall (fun v => has_vty v t = true) vals ->
@@ -66,8 +66,11 @@ Proof.
   destruct f.
   - (* count *) rewrite map_length. split; reflexivity.
   - (* sum *)
-    assert (Ht : t = TInt) by (destruct t; cbn in Ok, Safe; try discriminate; reflexivity). subst t.
-    rewrite (ints_enc d TInt l (or_introl eq_refl) Tl Nl). cbv zeta. destruct (map intval l); split; reflexivity.
+    assert (Ht : t = TInt \/ (t = TBool /\ pg d = false)).
+    { destruct t; cbn in Ok, Safe; try discriminate; [left; reflexivity|right; split; [reflexivity|]]. destruct (pg d); [discriminate|reflexivity]. }
+    rewrite (ints_enc d t l Ht Tl Nl). cbv zeta.
+    assert (R : rty FSum t = TInt) by (destruct Ht as [->|[-> _]]; reflexivity).
+    cbn [deca]. rewrite R. destruct (map intval l); split; reflexivity.
   - (* min *)
     assert (Ht : t <> TBool) by (destruct t; cbn in Ok; try discriminate; congruence).
     destruct l as [|v r]; [split; reflexivity|]. cbn [map minmax_list].
